@@ -3,7 +3,7 @@ import re
 from .. import q, fin
 from .. import containers as C
 from ..facts import AnalysisBroken
-from .server_common import sfn, use_after_callback, callback_calls
+from .server_common import sfn, use_after_callback, callback_calls, Only
 
 EXPLANATION = (
     "Structural rules on Server.cpp and the epoll implementation of Socket::Poll: (T1) consumers that scan forward from "
@@ -353,3 +353,9 @@ def run(prog, chk):
         chk.ok("C14.T8", run_, "default timer re-inserted when it fires", run_.where(re_ins[0]), "on the null-timer edge", evals=2)
     else:
         chk.bad("C14.T8", run_, "default-timer-not-requeued", "%s:%s" % (run_.file, run_.line), "when the default (null) timer fires it must be re-inserted, else the queue can become empty and begin().key() reads the sentinel")
+
+    # ------------------------------------------------------------------ T9: "a client that is writable with a backlog is eventually dispatched"
+    # needs the client to stay registered for write readiness whenever it has a backlog (and for read readiness unless suspended): the
+    # registration table of C13.d decides that clause as well
+    from . import c13
+    c13.run(prog, Only(chk, "C13.d", "C14.T9"))
